@@ -337,6 +337,70 @@ func glyfGenSimpleEnc(c *Ctx, contourSizes []int, instr []byte, allowOverflow bo
 	return buf
 }
 
+// glyfBoundaryEnc builds a simple glyph description with exactly n points (1..65536): up to three
+// contours whose last end point is n-1, run-length encoded flags and mostly zero-byte deltas, so
+// that even 65536 points take only a few hundred bytes.  It exercises the 16-bit boundaries of the
+// point count (last endPtsOfContours entry 0xFFFE / 0xFFFF, 255/256/257, 32767/32768).
+func glyfBoundaryEnc(c *Ctx, n int) (int, []byte) {
+	r := c.Rng
+	nc := r.Range(1, 3)
+	if nc > n {
+		nc = n
+	}
+	ends := map[int]bool{n - 1: true}
+	for len(ends) < nc {
+		ends[r.Intn(n)] = true
+	}
+	var buf []byte
+	for e := 0; e < n; e++ {
+		if ends[e] {
+			buf = append(buf, byte(e>>8), byte(e))
+		}
+	}
+	buf = append(buf, 0, 0) // no instructions
+	var xs, ys []byte
+	for i := 0; i < n; {
+		l := n - i
+		if l > 256 {
+			l = 256
+		}
+		if r.Chance(1, 8) {
+			l = r.Range(1, l)
+		}
+		f := byte(0x30 | r.Intn(2)) // x same, y same: no coordinate bytes
+		if l <= 64 && r.Chance(1, 3) {
+			f = byte(r.Intn(64)) &^ 0x08
+			if f&0x02 == 0 && f&0x10 == 0 { // no long x deltas: keep the values small
+				f |= 0x10
+			}
+			if f&0x04 == 0 && f&0x20 == 0 {
+				f |= 0x20
+			}
+			for k := 0; k < l; k++ {
+				if f&0x02 != 0 {
+					xs = append(xs, byte(r.Intn(8)))
+				}
+				if f&0x04 != 0 {
+					ys = append(ys, byte(r.Intn(8)))
+				}
+			}
+		}
+		if l >= 2 {
+			buf = append(buf, f|0x08, byte(l-1))
+		} else {
+			buf = append(buf, f)
+		}
+		i += l
+	}
+	buf = append(buf, xs...)
+	buf = append(buf, ys...)
+	c.Stat("simple_boundary_numPoints", fmt.Sprint(n))
+	return nc, buf
+}
+
+// glyfBoundaryCounts are the point counts at the 8/15/16-bit boundaries.
+var glyfBoundaryCounts = []int{255, 256, 257, 32767, 32768, 65535, 65536}
+
 func glyfBucketRepeat(n int) string {
 	switch {
 	case n == 0:
@@ -680,7 +744,18 @@ func areaGlyf(c *Ctx) {
 			n = r.Range(1, 40)
 		}
 		var gg glyf.Glyphs
-		if n == 65535 {
+		if i == 5 || i == 6 || (i > 6 && i%211 == 5) {
+			// a glyph with 65536 / 65535 / boundary many points among ordinary ones (removePadding)
+			np := Pick(r, glyfBoundaryCounts)
+			if i == 5 {
+				np = 65536
+			} else if i == 6 {
+				np = 65535
+			}
+			gg = glyfGenGlyphSet(c, r.Range(1, 4), 0)
+			bnc, benc := glyfBoundaryEnc(c, np)
+			gg[r.Intn(len(gg))] = &glyf.Glyph{Rect16: glyfRandBBox(r), Data: glyf.SimpleGlyph{NumContours: int16(bnc), Encoded: benc}}
+		} else if n == 65535 {
 			gg = make(glyf.Glyphs, n) // mostly empty glyphs, a few real ones
 			for k := 0; k < 30; k++ {
 				gg[r.Intn(n)] = glyfGenSimpleGlyph(c)
@@ -736,6 +811,27 @@ func areaGlyf(c *Ctx) {
 			gg[k] = &glyf.Glyph{Data: glyf.SimpleGlyph{NumContours: int16(r.Range(0, 3)), Encoded: r.Bytes(r.Range(0, 30))}}
 		}
 		glyfSetCase(c, gg, false)
+	}
+	// --- SimpleGlyph.Decode at the boundaries of the 16-bit point count (every run, both tiers)
+	bcounts := append([]int(nil), glyfBoundaryCounts...)
+	extra := 2
+	if c.Tier == "thorough" {
+		extra = 12
+	}
+	for k := 0; k < extra; k++ {
+		bcounts = append(bcounts, Pick(r, []int{65536, 65535, 65536, 32768, 256, r.Range(65000, 65536), r.Range(1, 700)}))
+	}
+	for _, np := range bcounts {
+		bnc, benc := glyfBoundaryEnc(c, np)
+		glyfSimpleCase(c, bnc, benc, "boundary")
+		// the same flags and deltas announced with one point more / less: must be refused or
+		// decoded consistently by model, code and specification
+		m := append([]byte(nil), benc...)
+		e := np - 1 + Pick(r, []int{-1, 1})
+		if e >= 0 && e <= 0xFFFF {
+			m[2*bnc-2], m[2*bnc-1] = byte(e>>8), byte(e)
+			glyfSimpleCase(c, bnc, m, "boundary_mutated")
+		}
 	}
 	// --- SimpleGlyph.Decode
 	for i := 0; i < c.N; i++ {
